@@ -209,6 +209,10 @@ func (f *Frame) selectorsOf(in ssa.Instruction) []string {
 		cm := in.Common()
 		if cm.IsInvoke() {
 			sels = append(sels, "invoke:"+cm.Method.Name())
+			// invoke:<Interface>.<Method> for named interface types
+			if n, ok := cm.Value.Type().(*types.Named); ok {
+				sels = append(sels, "invoke:"+n.Obj().Name()+"."+cm.Method.Name())
+			}
 		} else {
 			switch v := cm.Value.(type) {
 			case *ssa.Function:
